@@ -262,6 +262,44 @@ MUTANTS = [
     ("c14-arc-include-newaxis", ["C14", "C04"], "SH2", C,
      "    s_reference = np.expand_dims(reference_theta - thetas[..., 0],\n                                 axis=-1)",
      "    s_reference = np.expand_dims(reference_theta - thetas[..., 0],\n                                 axis=0)"),
+    # ---- SH5: hyperbolic objects interpreted end to end
+    ("c14-horoarc-unfix-centre-broadcast", ["C14", "C04"], "SH5", H,
+     "            center, np.expand_dims(self.center_coords(model=model), axis=-2)\n",
+     "            center, self.center_coords(model=model)\n"),
+    ("c14-arc-include-unfix-scalar", ["C14", "C04"], "SH2", C,
+     "    s_theta1 = np.where(s_theta1 < 0, s_theta1 + 2 * np.pi, s_theta1)\n",
+     "    s_theta1[s_theta1 < 0] += 2 * np.pi\n"),
+    ("c14-sphere-params-sum-axis", ["C14", "C04"], "SH5", H,
+     "            klein_midpoint = klein_basis.sum(axis=-2) / klein_basis.shape[-2]",
+     "            klein_midpoint = klein_basis.sum(axis=-1) / klein_basis.shape[-2]"),
+    ("c14-halfspace-radius-index", ["C14", "C04"], "SH5", H,
+     "                utils.normsq(halfspace_basis[..., 0, :] - halfspace_midpoint)",
+     "                utils.normsq(halfspace_basis[..., 0] - halfspace_midpoint)"),
+    ("c14-boundary-sphere-slice", ["C14", "C04"], "SH5", H,
+     "        sphere_pt_coords = self.ideal_basis_coords(model=Model.HALFSPACE)[..., :-1]",
+     "        sphere_pt_coords = self.ideal_basis_coords(model=Model.HALFSPACE)[..., :-2]"),
+    ("c14-boundaryarc-centre-shape", ["C14", "C04"], "SH5", H,
+     "        center = np.zeros(self.proj_data.shape[:-2] + (2,))",
+     "        center = np.zeros(self.proj_data.shape[:-1] + (2,))"),
+    ("c14-geodesic-ideal-basis-slice", ["C14", "C04"], "SH5", H,
+     "    @property\n    def ideal_basis(self):\n        return self.proj_data[..., :2, :]",
+     "    @property\n    def ideal_basis(self):\n        return self.proj_data[..., :1, :]"),
+    ("c14-ideal-basis-coords-drops-conversion", ["C14", "C04"], "SH5", H,
+     "        return Point(self.ideal_basis).coords(model)",
+     "        return Point(self.ideal_basis).coords(Model.PROJECTIVE)"),
+    ("c13-point-along-shape", ["C13", "C04"], "SH5", H,
+     "        kleinian_shape[-1] -= 1\n",
+     "        kleinian_shape[-1] -= 2\n"),
+    ("c13-unit-tangent-expand-axis", ["C13", "C04"], "SH5", H,
+     "        aligned = other.proj_data * np.expand_dims(-np.sign(products), axis=-1)",
+     "        aligned = other.proj_data * np.expand_dims(-np.sign(products), axis=0)"),
+    ("c15-data-with-dual-expand-axis", ["C15", "C04"], "SH5", H,
+     "            [np.expand_dims(midpoints, axis=-2),",
+     "            [np.expand_dims(midpoints, axis=-1),"),
+    ("c15-spacelike-complement-row", ["C15", "C04"], "SH5", H,
+     "        return DualPoint(orthed[..., 0, :])" if False else
+     "            np.expand_dims(orthed[..., -1, :], axis=-2),",
+     "            np.expand_dims(orthed[..., -1], axis=-2),"),
     # ---- C15
     ("c15-drop-reflection-guard", ["C15"], "R1", H,
      "        if (np.abs(eval_differences) > ERROR_THRESHOLD).any():\n            raise GeometryError(\"Not a reflection matrix\")\n",
